@@ -28,6 +28,7 @@ type recycleCase struct {
 	Direct   bool `json:"direct"`    // response handed to the agent by this goroutine (else by the reader goroutine)
 	OneP     bool `json:"one_p"`     // GOMAXPROCS(1): makes sync.Pool reuse deterministic
 	Mutate   bool `json:"mutate"`    // the caller also overwrites its own message after Start
+	SameID   bool `json:"same_id"`   // the first later request uses the id of the completed transaction again
 }
 
 func runRecycle(c recycleCase) error {
@@ -88,6 +89,11 @@ func runRecycle(c recycleCase) error {
 	wantAll := [][]byte{want, want}
 	for i := 0; i < c.Later; i++ {
 		m := request(100+i, c.LaterLen)
+		if i == 0 && c.SameID {
+			// the completed transaction's id, a different body: its successor must be left alone by whatever
+			// the parked retransmission still does (no extra transmission before the successor's deadline)
+			m = request(0, c.LaterLen+4)
+		}
 		wantAll = append(wantAll, append([]byte(nil), m.Raw...))
 		if err := w.Client.Start(m, func(stun.Event) {}); err != nil {
 			close(release)
@@ -149,10 +155,10 @@ func TestC11_Recycled(t *testing.T) {
 		for _, size := range []int{28, 84, 1500, 2044, 3000} {
 			for _, laterLen := range []int{28, 220, 2048, 4000} {
 				for _, later := range []int{1, 4, 16} {
-					for v := 0; v < 8; v++ {
-						c := recycleCase{Size: size, Later: later, LaterLen: laterLen, Direct: v&1 != 0, OneP: v&2 != 0, Mutate: v&4 != 0}
+					for v := 0; v < 16; v++ {
+						c := recycleCase{Size: size, Later: later, LaterLen: laterLen, Direct: v&1 != 0, OneP: v&2 != 0, Mutate: v&4 != 0, SameID: v&8 != 0}
 						var err error
-						if perr := pbt.Safely(func() { err = runRecycle(c) }); perr != nil {
+						if perr := pbt.Safely(func() { err = guardDeadlock(120*time.Second, "recycled-write scenario", func() error { return runRecycle(c) }) }); perr != nil {
 							err = perr
 						}
 						rec.Case("recycled", evid.NewH().Str(fmt.Sprint(c)).Sum(), true, func() any { return c })
